@@ -13,6 +13,7 @@ import (
 	"path/filepath"
 	"regexp"
 	"runtime"
+	"strconv"
 	"strings"
 	"sync"
 	"testing"
@@ -35,9 +36,10 @@ type C14Op struct {
 	Kind   string         `json:"kind,omitempty"` // request kind
 	Pos    refclient.Pos  `json:"pos,omitempty"`
 	Config map[string]any `json:"config,omitempty"`
-	Wait   int            `json:"wait"` // after the op: 0 proceed at once, 1 yield, 2 wait for quiescence
-	Hold   bool           `json:"hold,omitempty"` // open/change: the analysis this notification starts is held at its first statement until a release op
-	LIFO   bool           `json:"lifo,omitempty"` // release: last held first
+	Wait   int            `json:"wait"`              // after the op: 0 proceed at once, 1 yield, 2 wait for quiescence
+	Hold   bool           `json:"hold,omitempty"`    // open/change: the analysis this notification starts is held until a release op ...
+	HoldAt int            `json:"hold_at,omitempty"` // ... 0: at its first statement; 1: before it reads its first included file; 2: after it has read its first included file
+	LIFO   bool           `json:"lifo,omitempty"`    // release: last held first
 }
 
 type C14Case struct {
@@ -59,15 +61,27 @@ type c14Hooks struct {
 	inflight int
 	enabled  bool
 	holdWant map[string]int  // uri+content of analyses to hold when they start
-	held     []chan struct{} // analyses waiting at diag.start
+	holdAt   map[string]int  // uri+content -> hold point (see C14Op.HoldAt)
+	armed    map[uint64]int  // analysis goroutines that will be held at a point inside include loading
+	held     []chan struct{} // analyses waiting at a hook point
 }
 
-func (h *c14Hooks) wantHold(uri, content string) {
-	h.mu.Lock()
-	if h.holdWant == nil {
-		h.holdWant = map[string]int{}
+// goid returns the id of the calling goroutine (from the header of its stack trace).
+func goid() uint64 {
+	var buf [64]byte
+	n := runtime.Stack(buf[:], false)
+	f := strings.Fields(string(buf[:n]))
+	if len(f) < 2 {
+		return 0
 	}
+	id, _ := strconv.ParseUint(f[1], 10, 64)
+	return id
+}
+
+func (h *c14Hooks) wantHold(uri, content string, at int) {
+	h.mu.Lock()
 	h.holdWant[uri+"\x00"+content]++
+	h.holdAt[uri+"\x00"+content] = at
 	h.mu.Unlock()
 }
 
@@ -86,7 +100,7 @@ func (h *c14Hooks) nHeld() (held, pending int) {
 func (h *c14Hooks) stopHolding() {
 	h.mu.Lock()
 	held := h.held
-	h.held, h.holdWant = nil, map[string]int{}
+	h.held, h.holdWant, h.armed = nil, map[string]int{}, map[uint64]int{}
 	h.mu.Unlock()
 	for _, ch := range held {
 		close(ch)
@@ -125,6 +139,20 @@ func (h *c14Hooks) handler(name string, args ...string) {
 		h.inflight++
 		if key := args[0] + "\x00" + args[1]; h.enabled && h.holdWant[key] > 0 {
 			h.holdWant[key]--
+			if at := h.holdAt[key]; at > 0 {
+				// keeps running (counts as busy) until it parks inside include loading, or finishes
+				h.armed[goid()] = at
+				break
+			}
+			ch := make(chan struct{})
+			h.held = append(h.held, ch)
+			h.mu.Unlock()
+			<-ch
+			return
+		}
+	case "include.load", "include.loaded":
+		if at := h.armed[goid()]; h.enabled && ((at == 1 && name == "include.load") || (at == 2 && name == "include.loaded")) {
+			delete(h.armed, goid())
 			ch := make(chan struct{})
 			h.held = append(h.held, ch)
 			h.mu.Unlock()
@@ -133,6 +161,7 @@ func (h *c14Hooks) handler(name string, args ...string) {
 		}
 	case "diag.done":
 		h.inflight--
+		delete(h.armed, goid())
 	}
 	if h.enabled && (name == "diag.start" || name == "diag.publish" || name == "config.start") && h.next < len(h.delays) {
 		d = h.delays[h.next]
@@ -147,7 +176,7 @@ func (h *c14Hooks) handler(name string, args ...string) {
 func (h *c14Hooks) reset(delays []int, enabled bool) {
 	h.mu.Lock()
 	h.delays, h.next, h.cfgStart, h.cfgDone, h.inflight, h.enabled = delays, 0, 0, 0, 0, enabled
-	h.holdWant, h.held = map[string]int{}, nil
+	h.holdWant, h.holdAt, h.armed, h.held = map[string]int{}, map[string]int{}, map[uint64]int{}, nil
 	h.mu.Unlock()
 }
 
@@ -282,7 +311,7 @@ func c14Execute(c *C14Case, sequential bool) (*c14Run, []ev.Discrepancy) {
 					if !open[doc] {
 						text := c14Text(c, env, doc, op.Alt)
 						if op.Hold && !sequential {
-							c14h.wantHold(uri, text)
+							c14h.wantHold(uri, text, op.HoldAt)
 						}
 						_ = h.Open(uri, text)
 						open[doc] = true
@@ -292,7 +321,7 @@ func c14Execute(c *C14Case, sequential bool) (*c14Run, []ev.Discrepancy) {
 						version++
 						text := c14Text(c, env, doc, op.Alt)
 						if op.Hold && !sequential {
-							c14h.wantHold(uri, text)
+							c14h.wantHold(uri, text, op.HoldAt)
 						}
 						_ = h.Change(uri, version, []refclient.Change{{Text: text}})
 					}
@@ -503,9 +532,15 @@ func genC14(t *rapid.T, p *gen.Profile) *C14Case {
 		case 0:
 			op.Op, op.Alt = "open", rapid.IntRange(0, 2).Draw(t, "alt")
 			op.Hold = rapid.IntRange(0, 3).Draw(t, "hold") == 0
+			if op.Hold {
+				op.HoldAt = rapid.IntRange(0, 2).Draw(t, "holdat")
+			}
 		case 1, 2, 3:
 			op.Op, op.Alt = "change", rapid.IntRange(0, 2).Draw(t, "alt")
 			op.Hold = rapid.IntRange(0, 3).Draw(t, "hold") == 0
+			if op.Hold {
+				op.HoldAt = rapid.IntRange(0, 2).Draw(t, "holdat")
+			}
 		case 12:
 			op.Op, op.LIFO = "release", rapid.Bool().Draw(t, "lifo")
 		case 4:
@@ -533,6 +568,40 @@ func genC14(t *rapid.T, p *gen.Profile) *C14Case {
 		for k := rapid.IntRange(1, 3).Draw(t, "preqs"); k > 0; k-- {
 			c.Ops = append(c.Ops, C14Op{Op: "request", Doc: d, Kind: rapid.SampledFrom([]string{"completion", "hover", "definition", "references", "rename", "inlineCompletion"}).Draw(t, "pkind"),
 				Pos: refclient.Pos{Line: rapid.IntRange(0, 12).Draw(t, "pline"), Char: rapid.IntRange(0, 30).Draw(t, "pchar")}})
+		}
+	}
+	if n >= 2 && rapid.IntRange(0, 3).Draw(t, "includepattern") == 0 {
+		// an included file that is open changes while the analysis of the including document is
+		// between reading that file and storing its result; then requests on the including document
+		// an including document and one of the files it includes, when there is such a pair
+		type edge struct{ from, to int }
+		var edges []edge
+		for i := 0; i < n; i++ {
+			for _, k := range gen.IncludeTargets(ws.Files[i].Journal, i, n) {
+				if k != i {
+					edges = append(edges, edge{i, k})
+				}
+			}
+		}
+		d := rapid.IntRange(0, n-1).Draw(t, "ipdoc")
+		e := rapid.IntRange(0, n-1).Draw(t, "ipinc")
+		if len(edges) > 0 {
+			ed := rapid.SampledFrom(edges).Draw(t, "ipedge")
+			d, e = ed.from, ed.to
+		}
+		if rapid.IntRange(0, 2).Draw(t, "ipnoroot") != 0 {
+			c.Root = false // with a workspace root the requests go to the workspace tree, not to the per-document one
+		}
+		a1 := rapid.IntRange(0, 2).Draw(t, "ipalt1")
+		c.Ops = append(c.Ops,
+			C14Op{Op: "open", Doc: e, Alt: a1, Wait: 2},
+			C14Op{Op: "open", Doc: d, Wait: 2},
+			C14Op{Op: "change", Doc: d, Alt: rapid.IntRange(0, 2).Draw(t, "ipalt0"), Hold: true, HoldAt: rapid.IntRange(1, 2).Draw(t, "ipat")},
+			C14Op{Op: "change", Doc: e, Alt: (a1 + rapid.IntRange(1, 2).Draw(t, "ipalt2")) % 3, Wait: rapid.SampledFrom([]int{0, 2}).Draw(t, "ipwait")},
+			C14Op{Op: "release", Wait: 2})
+		for k := rapid.IntRange(1, 3).Draw(t, "ipreqs"); k > 0; k-- {
+			c.Ops = append(c.Ops, C14Op{Op: "request", Doc: d, Kind: rapid.SampledFrom([]string{"completion", "hover", "definition", "references", "rename", "inlineCompletion"}).Draw(t, "ipkind"),
+				Pos: refclient.Pos{Line: rapid.IntRange(0, 12).Draw(t, "ipline"), Char: rapid.IntRange(0, 30).Draw(t, "ipchar")}})
 		}
 	}
 	nd := rapid.IntRange(0, 12).Draw(t, "ndelays")
